@@ -678,7 +678,7 @@ void HPProc::lineIntegral(int inttype, double *z)
 				{
                     flag=false;
                     for(int j=0;j<3;j++)
-                        for(int m=0;m<NumList[meshelems[elm]->p[j]];m++)
+                        for(int m=0;j<3 && m<NumList[meshelems[elm]->p[j]];m++)
 						{
                             elm=ConList[meshelems[elm]->p[j]][m];
                             if (InTriangleTest(pt.re,pt.im,elm)==true)
@@ -752,7 +752,7 @@ void HPProc::lineIntegral(int inttype, double *z)
 				{
                     flag=false;
                     for(int j=0;j<3;j++)
-                        for(int m=0;m<NumList[meshelems[elm]->p[j]];m++)
+                        for(int m=0;j<3 && m<NumList[meshelems[elm]->p[j]];m++)
 						{
                             elm=ConList[meshelems[elm]->p[j]][m];
                             if (InTriangleTest(pt.re,pt.im,elm)==true)
